@@ -157,6 +157,23 @@ def build(arg, tier):
     return P.vecs
 
 
+def build_dtor(arg, tier):
+    """destruction of a parked aggregate while sources are still in flight: another thread completes them while the destructor blocks"""
+    P = Plan(arg)
+    quick = tier == 'quick'
+    mixed_async = [S_FUT_HV, S_CO_NEXT, S_CO_CALL]
+    cfgs = [[[Y, AP, Y, Y], [AP, Y, Y], [Y, Y]], [[Y, Y], [AP, Y]], [[Y, Y], [AP, TH], [AP]]]
+    if not quick:
+        cfgs += [[[AP, Y, AP, Y], [Y, AP, TH]], [[FOREVER], [AP, FOREVER], [Y, AP]], [[Y, Y], [Y, Y], [Y, Y], [AP, Y]], [[Y, AP, Y], [AP, AP, Y], [AP, RET]]]
+    for cfg in cfgs:
+        tot = total_events(cfg) or 7
+        for k in range(0, min(tot, 4 if quick else 7)):
+            for pm in (0, 1):
+                for rot in ((0,) if quick else (0, 1, 2)):
+                    P.read(cfg, mixed_async[rot:] + mixed_async[:rot], upto=k, pmode=pm, first_null=[(i + pm) % 2 for i in range(len(cfg))])
+    return P.vecs
+
+
 def plan(tier):
     units = []
     for arg in (False, True):
@@ -188,4 +205,14 @@ def plan(tier):
             outside=('5 sources; a synchronous read or the destruction of the aggregate while every remaining source is still in flight (blocks until another '
                      'thread completes a source: here in-flight sources are completed first); sources completing on another OS thread; '
                      'the interleaving between sources is not constrained (the statement fixes only per-source order)')))
+        dv = build_dtor(arg, tier)
+        units.append(dict(
+            engine='e1', name='destroy_inflight' + ('_arg' if arg else ''), tu='C14.cpp', entry=entry + '_dtor', defines=defines, unwind=40, vectors=dv, timeout=900,
+            concrete=[(v, [1, 2, 3, 4, 5, 6, 7, 8, 9, 10, 11, 12]) for v in (dv[1], dv[len(dv) // 2], dv[-1])],
+            space=('%s: the aggregate is destroyed while it is parked and sources are still in flight; another thread completes them while the destructor is blocked in its drain '
+                   '(wait hook, rt.h vf_wait_arm): %d configurations of 2..%d sources x destruction after 0..k asynchronous accesses x which in-flight source completed first; %d vectors'
+                   % (what, 3 if tier == 'quick' else 7, 3 if tier == 'quick' else 4, len(dv))),
+            data='payloads of the items, results of the awaited futures and call arguments: unconstrained 32-bit ints (symbolic)',
+            bounds='<= 4 sources, <= 6 accesses before the destruction; the other thread completes every in-flight source in one step while the destructor waits',
+            outside='completion of in-flight sources interleaved with the destructor at a finer granularity; destruction while the consumer itself is still waiting for a value'))
     return units
